@@ -38,6 +38,7 @@ LEAN = {"module": "Pygom.Props.C09", "extra_modules": ["Pygom.Lemmas.Params"],
                      "Pygom.C09.partial_update_on_unset_binds_zero", "Pygom.C09.pairs_duplicate_keeps_last",
                      "Pygom.C09.pairs_unmentioned_binds_zero", "Pygom.C09.legacy_rejected_dict_leaks_counterexample",
                      "Pygom.C09.legacy_time_symbol_commits_counterexample", "Pygom.C09.history_binding_legacy_counterexample",
+                     "Pygom.C09.copies_bind_by_name", "Pygom.C09.restore_preserves_abs", "Pygom.C09.setstate_rebuild_counterexample",
                      "Pygom.Params.unrollPure_get", "Pygom.Params.lv_dset", "Pygom.Params.Inv_dset", "Pygom.Params.lv_foldl_dset"]}
 BUDGET = {"quick": {"models": 900, "malformed": 600, "max_ops": 8},
           "thorough": {"models": 12000, "malformed": 8000, "max_ops": 20}}
@@ -47,14 +48,30 @@ RULE = ("random model definitions (shared generator, lambda back-end; an extra e
         "subset), all values distinct; a share of ops (15% in the regular stream, 45% in the malformed stream) is malformed: "
         "short/long list, tuple, array, (n,2) and (1,n) arrays, short/long pair list, unknown name, time symbol 't', Symbol "
         "names in a pair list, duplicate names, too many dict entries, unknown dict key first/middle/last, unsupported dict "
-        "value, scalar, str, None, list of str.  A case is non-trivial when the history contains an accepted permuted or "
-        "partial assignment")
+        "value, scalar, str, None, list of str.  Numbers are passed as Python float / int, numpy float64 / int64 / int32 "
+        "scalars or mixed, arrays as float64 / int64 / int32 (integer types with integer values); 8% of the assignments repeat an earlier one "
+        "(values restored after others were in force); after 30% of the accepted assignments the CALLER overwrites the container he passed; every container passed is compared with its snapshot "
+        "after the call and again at the end of the history (a container written to is a recorded side effect - a tag -, never "
+        "a violation: only wrong evaluations are).  In 35% of the cases the history also contains copy.deepcopy of "
+        "a live instance at a random moment (at most 3 live instances; assignments then go to a random instance, 60% to "
+        "the new copy), transient copy.copy / pickle round trips (evaluated once, then given other values and dropped); "
+        "after EVERY operation EVERY live instance is evaluated (state passed as list / tuple / ndarray / list of numpy "
+        "scalars, time as float / numpy float) and judged against its own name -> value map, and instances not addressed "
+        "must evaluate exactly as before.  In half of the cases a second model built from the same definition (same names) "
+        "is assigned other values and evaluated between every assignment and the evaluations.  A case is non-trivial when "
+        "the history contains an accepted permuted or partial assignment")
 ASSUMPTIONS = ["the setter variant (atomic or not: does a rejected assignment leave _parameters/_paramValue touched) is MEASURED on the "
                "tree under test by a fixed two-assignment probe through the public getter and ode(); the theorems cover both variants: "
                "history_binding needs the atomic one, for the other the *_counterexample theorems hold and the direct oracle reports the violation",
                "frozen-distribution and (callable, args) dict values are not modelled (C16)",
                "parameters declared as ODEVariable objects whose name differs from their ID are out of scope (declared by string here)",
-               "evaluation comparisons: relative 1e-9 / absolute 1e-11 against a 50-digit reference"]
+               "evaluation comparisons: relative 1e-9 / absolute 1e-11 against a 50-digit reference",
+               "copies: copy.deepcopy gives an independent instance that starts with its original's bindings (Params.restore false; "
+               "Pygom.C09.copies_bind_by_name); copy.copy shares the bound evaluator methods with its original on the tree as found, "
+               "so a shallow copy is only judged at the moment it is made (and that the original is not disturbed by what is done "
+               "to it); pickling a model raises on the tree as found (closures): recorded as unsupported, judged like deepcopy if it ever works",
+               "the caller re-using (overwriting) a container after passing it to the setter must not change the model: the tree as "
+               "found copies the values out of every accepted container"]
 TRUSTED = ["harness generator, AST printer (exprs.to_str) and interpreter (exprs.ev)", "Lean driver JSON codec",
            "the Python dict spec of the direct oracle (oracle_step, 40 lines)"]
 
@@ -116,31 +133,56 @@ class Vals:
     def many(self, n):
         return [self.one() for _ in range(n)]
 
+    def one_int(self):
+        while True:
+            f = Fraction(self.rng.randint(1, 400))
+            if f not in self.used:
+                self.used.add(f)
+                return str(f)
+
+    def some(self, n, ints):
+        return [self.one_int() if ints else self.one() for _ in range(n)]
+
 
 def _key(rng, name, allow=("str", "sym")):
     return [rng.choice(allow), name]
 
 
+NUM_ELTS = ["float", "float", "int", "np_float64", "np_int64", "np_int32", "mixed"]      # element type of list / tuple / pair / dict values
+ARR_DTYPES = ["float64", "float64", "int64", "int32"]                                    # ndarray dtypes
+INT_ELTS = ("int", "np_int64", "np_int32")
+
+
 def gen_valid_op(rng, params, V):
+    """an accepted input form.  "elt" / "dtype": element type of the numbers (Python float / int, numpy scalars, mixed;
+    ndarray of float64 / int64 / int32 - integer types get integer values); "scribble": after the assignment the CALLER
+    overwrites the container he passed (the model must have taken the values, not the container)"""
     n = len(params)
     kind = gen.wchoice(rng, [("nums", 3), ("arr", 2), ("pairs", 4), ("dict_full", 3), ("dict_partial", 6)])
+    elt = rng.choice(NUM_ELTS)
+    ints = elt in INT_ELTS
+    scribble = rng.random() < 0.3
     if kind == "nums":
-        return {"k": "nums", "seq": rng.choice(["list", "tuple"]), "vals": V.many(n), "ints": rng.random() < 0.2, "cls": "nums"}
+        return {"k": "nums", "seq": rng.choice(["list", "tuple"]), "vals": V.some(n, ints), "elt": elt, "scribble": scribble, "cls": "nums"}
     if kind == "arr":
         shape = rng.choice(["1d", "1d", "col"])
-        return {"k": "arr", "shape": shape, "len": n, "flat": V.many(n), "cls": "arr_" + shape}
+        dtype = rng.choice(ARR_DTYPES)
+        return {"k": "arr", "shape": shape, "len": n, "flat": V.some(n, dtype != "float64"), "dtype": dtype, "scribble": scribble,
+                "cls": "arr_" + shape}
     if kind == "pairs":
         names = list(params)
         rng.shuffle(names)
-        ps = [[_key(rng, nm, ("str", "str", "str", "odevar")), V.one()] for nm in names]
-        return {"k": "pairs", "seq": rng.choice(["list", "tuple"]), "ps": ps, "cls": "pairs_perm" if names != list(params) else "pairs_inorder"}
+        ps = [[_key(rng, nm, ("str", "str", "str", "odevar")), V.some(1, ints)[0]] for nm in names]
+        return {"k": "pairs", "seq": rng.choice(["list", "tuple"]), "ps": ps, "elt": elt, "scribble": scribble,
+                "cls": "pairs_perm" if names != list(params) else "pairs_inorder"}
     if kind == "dict_full":
         names = list(params)
         rng.shuffle(names)
-        return {"k": "dict", "es": [[_key(rng, nm), V.one()] for nm in names], "cls": "dict_full"}
+        return {"k": "dict", "es": [[_key(rng, nm), V.some(1, ints)[0]] for nm in names], "elt": elt, "scribble": scribble, "cls": "dict_full"}
     m = rng.randint(1, n) if rng.random() < 0.93 else 0
     names = rng.sample(list(params), m)
-    return {"k": "dict", "es": [[_key(rng, nm), V.one()] for nm in names], "cls": "dict_partial" if m < n else "dict_full"}
+    return {"k": "dict", "es": [[_key(rng, nm), V.some(1, ints)[0]] for nm in names], "elt": elt, "scribble": scribble,
+            "cls": "dict_partial" if m < n else "dict_full"}
 
 
 MALFORMED_KINDS = ["nums_short", "nums_long", "arr_short", "arr_long", "arr_n2", "arr_row", "pairs_short", "pairs_long",
@@ -224,22 +266,59 @@ def gen_malformed_op(rng, params, V, kind=None):
     raise ValueError(kind)
 
 
-def gen_case(rng, budget, malformed):
+EVAL_FORMS = ["list_float", "tuple_float", "nd_float", "list_npfloat"]
+EVAL_TFORMS = ["float", "np_float"]
+MAX_INSTANCES = 3
+
+
+def gen_case(rng, budget, malformed, copies=None):
+    """history of operations on a small SYSTEM of live instances: instance 0 is the model built from the spec;
+    {"k":"clone","how":"deepcopy","src":i} appends copy.deepcopy(instance i) (at most MAX_INSTANCES); every assignment
+    carries "inst" (the instance it is addressed to); {"k":"probe_copy","how":"copy"|"pickle","src":i,"decoy":[q..]} makes a
+    transient shallow copy / pickle round trip of instance i, evaluates it, assigns the decoy values to it and drops it.
+    After every operation every live instance is evaluated."""
     spec, meta = gen.gen_model(rng, allow_range=True)
     ensure_all_params_used(rng, spec, meta)
     params = meta["params"]
     V = Vals(rng)
     nops = rng.randint(1, budget["max_ops"])
     p_bad = 0.45 if malformed else 0.15
+    copies = (rng.random() < 0.35) if copies is None else copies
+    p_copy = 0.22 if copies else 0.0
     hist = []
+    ninst = 1
+    subject = 0
     for _ in range(nops):
-        if rng.random() < p_bad:
-            hist.append(gen_malformed_op(rng, params, V))
+        u = rng.random()
+        if u < p_copy:
+            how = gen.wchoice(rng, [("deepcopy", 6), ("copy", 2), ("pickle", 1)])
+            src = rng.randrange(ninst)
+            if how == "deepcopy" and ninst < MAX_INSTANCES:
+                hist.append({"k": "clone", "how": "deepcopy", "src": src, "cls": "clone_deepcopy"})
+                ninst += 1
+                if rng.random() < 0.6:
+                    subject = ninst - 1          # evaluation and assignment continue on the COPY
+                continue
+            if how != "deepcopy":
+                hist.append({"k": "probe_copy", "how": how, "src": src, "decoy": V.many(len(params)), "cls": "probe_" + how})
+                continue
+        if ninst > 1 and rng.random() < 0.35:
+            subject = rng.randrange(ninst)
+        earlier = [o for o in hist if o["k"] in ("nums", "arr", "pairs", "dict") and (o.get("elt") or o.get("dtype"))]
+        if earlier and rng.random() < 0.08:
+            # RESTORE: an earlier accepted form again, same values (after other values were in force in between)
+            op = copy.deepcopy(rng.choice(earlier))
+            op["scribble"] = False
         else:
-            hist.append(gen_valid_op(rng, params, V))
+            op = gen_malformed_op(rng, params, V) if rng.random() < p_bad else gen_valid_op(rng, params, V)
+        op["inst"] = subject
+        hist.append(op)
     pt = gen.rand_point(rng, meta)
     return {"spec": spec, "meta": meta, "history": hist, "malformed": malformed,
-            "point": {k: str(v) for k, v in pt.items() if k in meta["states"] or k == "t"}}
+            "point": {k: str(v) for k, v in pt.items() if k in meta["states"] or k == "t"},
+            # a SECOND model with the same names gets other values and is evaluated between every assignment and the evaluation
+            "decoy": rng.random() < 0.5,
+            "xforms": [[rng.choice(EVAL_FORMS), rng.choice(EVAL_TFORMS)] for _ in range(len(hist) + 1)]}
 
 
 def make_cases(rng, tier, budget):
@@ -252,7 +331,8 @@ def make_cases(rng, tier, budget):
 
 
 def search_cases(rng, tier, budget):
-    return [gen_case(random.Random(rng.getrandbits(64)), budget, i % 2 == 0) for i in range(3 * (budget["models"] + budget["malformed"]))]
+    return [gen_case(random.Random(rng.getrandbits(64)), budget, i % 2 == 0, copies=(i % 3 != 2))
+            for i in range(3 * (budget["models"] + budget["malformed"]))]
 
 
 # ----------------------------------------------------------------------------------------------
@@ -263,6 +343,24 @@ def pyval(q, ints=False):
     f = Fraction(q)
     if ints and f.denominator == 1:
         return int(f)
+    return float(f)
+
+
+def eltval(q, elt, i=0):
+    """the number `q` as an object of the element type `elt` ("mixed": by position)"""
+    f = Fraction(q)
+    if elt == "mixed":
+        elt = ["float", "np_float64", "int", "np_int64"][i % 4]
+    if f.denominator != 1 and elt in INT_ELTS:
+        elt = "float" if elt == "int" else "np_float64"
+    if elt == "int":
+        return int(f)
+    if elt == "np_float64":
+        return np.float64(float(f))
+    if elt == "np_int64":
+        return np.int64(int(f))
+    if elt == "np_int32":
+        return np.int32(int(f))
     return float(f)
 
 
@@ -280,12 +378,19 @@ def pyname(ref):
 def to_python(op):
     k = op["k"]
     seq = list if op.get("seq", "list") == "list" else tuple
+    elt = op.get("elt")
     if k == "none":
         return None
     if k == "nums":
+        if elt:
+            return seq(eltval(v, elt, i) for i, v in enumerate(op["vals"]))
         return seq(pyval(v, op.get("ints", False)) for v in op["vals"])
     if k == "arr":
-        a = np.array([pyval(v) for v in op["flat"]], dtype=float)
+        dtype = op.get("dtype", "float64")
+        if dtype != "float64" and all(Fraction(v).denominator == 1 for v in op["flat"]):
+            a = np.array([int(Fraction(v)) for v in op["flat"]], dtype=dtype)
+        else:
+            a = np.array([pyval(v) for v in op["flat"]], dtype=float)
         if op["shape"] == "col":
             a = a.reshape(len(op["flat"]), 1)
         elif op["shape"] == "row":
@@ -294,11 +399,11 @@ def to_python(op):
             a = a.reshape(op["len"], 2)
         return a
     if k == "pairs":
-        return seq((pyname(r), pyval(v)) for r, v in op["ps"])
+        return seq((pyname(r), eltval(v, elt or "float", i)) for i, (r, v) in enumerate(op["ps"]))
     if k == "seq_other":
         return seq("s%d" % i for i in range(op["len"]))
     if k == "dict":
-        return {pyname(r): ("x" if v is None else pyval(v)) for r, v in op["es"]}
+        return {pyname(r): ("x" if v is None else eltval(v, elt or "float", i)) for i, (r, v) in enumerate(op["es"])}
     if k == "scalar":
         return pyval(op["v"])
     if k == "other":
@@ -306,7 +411,58 @@ def to_python(op):
     raise ValueError(k)
 
 
+def snapshot(obj):
+    """a comparable deep snapshot of what the caller passed (types included)"""
+    if isinstance(obj, np.ndarray):
+        return ("nd", str(obj.dtype), obj.shape, obj.tolist())
+    if isinstance(obj, dict):
+        return ("dict", [(type(k).__name__, str(k), type(v).__name__, repr(v)) for k, v in obj.items()])
+    if isinstance(obj, (list, tuple)):
+        return (type(obj).__name__, [snapshot(v) for v in obj])
+    return (type(obj).__name__, repr(obj))
+
+
+def scribble(obj):
+    """the caller re-uses his container after the assignment: every value is overwritten (lists, arrays, dicts; a tuple
+    cannot be written to)"""
+    if isinstance(obj, np.ndarray):
+        obj[...] = np.arange(obj.size, dtype=obj.dtype).reshape(obj.shape) + 977
+        return True
+    if isinstance(obj, list):
+        for i in range(len(obj)):
+            obj[i] = (obj[i][0], 977.0 + i) if isinstance(obj[i], tuple) else 977.0 + i
+        obj.append(12345.0)
+        return True
+    if isinstance(obj, dict):
+        for i, key in enumerate(list(obj)):
+            obj[key] = 977.0 + i
+        obj["__scribbled__"] = 1.0
+        return True
+    return False
+
+
+def eval_args(form, tform, x, t):
+    if form == "tuple_float":
+        xa = tuple(x)
+    elif form == "nd_float":
+        xa = np.array(x, dtype=float)
+    elif form == "list_npfloat":
+        xa = [np.float64(v) for v in x]
+    else:
+        xa = list(x)
+    return xa, (np.float64(t) if tform == "np_float" else float(t))
+
+
 def to_lean(op):
+    k = op["k"]
+    if k == "clone":
+        return {"k": "clone", "src": op["src"]}
+    o = _to_lean(op)
+    o["inst"] = int(op.get("inst", 0))
+    return o
+
+
+def _to_lean(op):
     k = op["k"]
     if k in ("none", "other"):
         return {"k": k}
@@ -453,19 +609,20 @@ def getter_map(model):
 def evaluate(model, x, t):
     """('ok', ode, grad) or ('raise', ExceptionName, msg)"""
     try:
-        f = np.asarray(model.ode(x, t), float).ravel()
-        g = np.asarray(model.grad(x, t), float).ravel()
+        f = np.array(model.ode(x, t), dtype=float).ravel()
+        g = np.array(model.grad(x, t), dtype=float).ravel()
         return ("ok", f, g)
     except Exception as exc:
         return ("raise", type(exc).__name__, str(exc)[:120])
 
 
 def same_eval(a, b):
+    """two evaluations of the same instance (possibly with the state passed in another container type): equal up to 1e-12"""
     if a[0] != b[0]:
         return False
     if a[0] == "raise":
         return a[1] == b[1]
-    return bool(np.array_equal(a[1], b[1]) and np.array_equal(a[2], b[2]))
+    return bool(len(a[1]) == len(b[1]) and len(a[2]) == len(b[2]) and vec_close(a[1], b[1], 1e-12, 1e-14) and vec_close(a[2], b[2], 1e-12, 1e-14))
 
 
 def classify_wrong(name, actual, expected, idx, history, verdicts):
@@ -501,12 +658,15 @@ def classify_wrong(name, actual, expected, idx, history, verdicts):
 
 def run_case(case):
     global _ATOMIC
+    import copy as _copy
+    import pickle
     spec, meta, hist = case["spec"], case["meta"], case["history"]
     tags, mism, viol = [], [], []
     variant = probe_atomic()
     tags.append("setter_variant:" + ("atomic" if variant["atomic"] else "legacy(dict_leak=%s,t_commit=%s)" % (variant["dict_leak"], variant["t_commit"])))
     model = pymodel.build(spec, backend="lambda")
     ref = pymodel.build(spec, backend="lambda")
+    decoy = pymodel.build(spec, backend="lambda") if case.get("decoy") else None
     params = [str(p) for p in model.param_list]
     states = [str(s) for s in model.state_list]
     if params != meta["params"] or states != meta["states"]:
@@ -515,41 +675,44 @@ def run_case(case):
     n = len(params)
     tags.append("nP=%d" % n)
     tags.append("ops=%d" % len(hist))
+    if decoy is not None:
+        tags.append("decoy_instance")
     pt = {k: Fraction(v) for k, v in case["point"].items()}
     x = [float(pt[s]) for s in states]
     t = float(pt["t"])
+    xforms = case.get("xforms") or [["list_float", "float"]] * (len(hist) + 1)
 
-    lean = leanio.driver().call({"op": "params", "names": params, "atomic": variant["atomic"], "history": [to_lean(o) for o in hist]})
+    lean_hist = [to_lean(o) for o in hist if o["k"] != "probe_copy"]
+    lean = leanio.driver().call({"op": "params", "names": params, "atomic": variant["atomic"], "history": lean_hist})
+    if "steps" not in lean:
+        mism.append({"what": "params:driver", "detail": json.dumps(lean)[:300]})
+        return {"nontrivial": False, "mismatches": mism, "violations": viol, "tags": tags}
     steps = lean["steps"]
 
-    cur = None                 # the oracle's map
+    # the live instances: the real model, the direct oracle's name -> value map (None: nothing bound yet), the last
+    # evaluation, how the instance came to be
+    insts = [{"m": model, "cur": None, "prev": None, "origin": "built", "copied_from": False}]
+    passed = []                # (what the caller passed, snapshot when it was passed, op class): re-checked at the end
     verdicts = []
-    prev_eval = evaluate(model, x, t)
-    if prev_eval[0] != "raise":
-        viol.append({"what": "a model whose parameters were never assigned evaluates", "signature": "fresh-model-evaluates", "detail": str(prev_eval)[:300]})
+
+    def ev(inst_model, idx):
+        form, tform = xforms[min(idx, len(xforms) - 1)]
+        xa, ta = eval_args(form, tform, x, t)
+        snap = snapshot(xa)
+        r = evaluate(inst_model, xa, ta)
+        if snapshot(xa) != snap:
+            tags.append("side-effect:argument-modified:%s" % form)       # a side effect, not a wrong value: recorded only
+        return r
+
+    insts[0]["prev"] = ev(model, 0)
+    if insts[0]["prev"][0] != "raise":
+        viol.append({"what": "a model whose parameters were never assigned evaluates", "signature": "fresh-model-evaluates", "detail": str(insts[0]["prev"])[:300]})
     nontrivial = False
     sample_steps = []
-    for idx, op in enumerate(hist):
-        ls = steps[idx]
-        verdict, new = oracle_step(params, cur, op)
-        pyobj = to_python(op)
-        try:
-            model.parameters = pyobj
-            perr = None
-        except BaseException as exc:       # the setter raises Warning for None
-            perr = err_enum(exc)
-        accepted = perr is None
-        verdicts.append("accepted" if accepted else "rejected")
-        tags.append("op:%s:%s" % (op["cls"], "accepted" if accepted else perr))
-        where = "op#%d %s" % (idx, op["cls"])
 
-        # ---- correspondence with the Lean model ------------------------------------------------
-        lerr = ls["err"]
-        if (lerr is None) != accepted:
-            mism.append({"what": "accept/reject", "detail": "%s: lean=%s python=%s ; op=%s" % (where, lerr, perr, json.dumps(op))})
-        elif lerr != perr:
-            mism.append({"what": "error-kind", "detail": "%s: lean=%s python=%s ; op=%s" % (where, lerr, perr, json.dumps(op))})
-        gmap, gkeys = getter_map(model)
+    def lean_compare(m, ls, where, now_eval, op):
+        """correspondence of one instance with the state the Lean model reports for it"""
+        gmap, gkeys = getter_map(m)
         if (gmap is None) != (not ls["set"]):
             mism.append({"what": "parameters-getter:set/unset", "detail": "%s: python getter %s lean set=%s" % (where, gmap, ls["set"])})
         elif gmap is not None:
@@ -562,14 +725,13 @@ def run_case(case):
             lkeys = [[a, b] for a, b, _ in (ls["dict"] or [])]
             if lkeys != gkeys:
                 tags.append("recorded:dict_keys_differ")
-        pv_py = getattr(model, "_paramValue", None)
+        pv_py = getattr(m, "_paramValue", None)
         if pv_py is not None:
             try:
                 if [float(v) for v in pv_py] != [float(Fraction(q)) for q in ls["pv"]]:
                     tags.append("recorded:_paramValue_differs")
             except Exception:
                 tags.append("recorded:_paramValue_differs")
-        now_eval = evaluate(model, x, t)
         if ls["set"]:
             env = dict(pt)
             env.update({nm: Fraction(q) for nm, q in zip(params, ls["pv"])})
@@ -586,66 +748,216 @@ def run_case(case):
         elif now_eval[0] == "ok":
             mism.append({"what": "ode-vs-lean-paramValue", "detail": "%s: python evaluates, lean has _parameters unset" % where})
 
-        # ---- direct oracle (no Lean) -----------------------------------------------------------
-        if verdict == "accept" and not accepted:
-            viol.append({"what": "an accepted input form is rejected with %s" % perr, "signature": "valid-rejected:%s:%s" % (op["cls"], perr),
-                         "detail": "%s op=%s history=%s" % (where, json.dumps(op), json.dumps(hist[:idx]))[:1800]})
-        if verdict == "reject" and accepted:
-            viol.append({"what": "malformed assignment accepted (bound silently)", "signature": "malformed-accepted:%s" % op["cls"],
-                         "detail": "%s op=%s" % (where, json.dumps(op))})
-        if accepted:
-            cur = new
-        if not accepted and not same_eval(prev_eval, now_eval):
-            viol.append({"what": "evaluations change after a REJECTED assignment (%s)" % perr,
-                         "signature": "eval-changed-after-rejected:%s" % op["cls"],
-                         "detail": "%s op=%s ; before %s after %s ; _paramValue=%s" % (where, json.dumps(op), _ev_s(prev_eval), _ev_s(now_eval), pv_py)})
-        elif cur is None:
+    def judge_values(m, cur, now_eval, where, sig_of, idx, what_prefix):
+        """DIRECT ORACLE: the instance must evaluate with the values `cur` gives by name"""
+        if cur is None:
             if now_eval[0] == "ok":
-                viol.append({"what": "model evaluates although no assignment was ever accepted", "signature": "evaluates-unset:%s" % op["cls"],
-                             "detail": "%s op=%s" % (where, json.dumps(op))})
-        elif any(cur[p] is None for p in params):
+                viol.append({"what": "%s evaluates although no assignment was ever accepted" % what_prefix, "signature": sig_of("evaluates-unset"),
+                             "detail": where})
+            return
+        if any(cur[p] is None for p in params):
             tags.append("oracle:dont_care_after_unclaimed_input")
-        else:
-            expected = [cur[p] for p in params]
-            env = dict(pt)
-            env.update(cur)
-            try:
-                f_o = net_oracle(meta, spec, env)[0]
-            except (E.Undefined, ZeroDivisionError):
-                f_o = None
-            ref.parameters = [float(v) for v in expected]
-            r_eval = evaluate(ref, x, t)
-            wrong = None
-            if now_eval[0] != "ok":
-                wrong = "evaluation raises %s: %s" % (now_eval[1], now_eval[2])
-            elif f_o is not None and not vec_close(now_eval[1], f_o):
-                wrong = "ode(x,t)=%s but sum rate*net at the values given is %s" % (list(now_eval[1]), [mpf_s(v) for v in f_o])
-            elif r_eval[0] == "ok" and not (vec_close(now_eval[1], r_eval[1]) and vec_close(now_eval[2], r_eval[2])):
-                wrong = "ode/grad differ from a fresh model assigned the same values positionally: ode %s vs %s ; grad %s vs %s" % (
-                    list(now_eval[1]), list(r_eval[1]), list(now_eval[2]), list(r_eval[2]))
-            if wrong:
-                cls = "unclassified"
-                if pv_py is not None and len(pv_py) == n:
-                    for nm, a, e in zip(params, pv_py, expected):
+            return
+        expected = [cur[p] for p in params]
+        env = dict(pt)
+        env.update(cur)
+        try:
+            f_o = net_oracle(meta, spec, env)[0]
+        except (E.Undefined, ZeroDivisionError):
+            f_o = None
+        ref.parameters = [float(v) for v in expected]
+        r_eval = evaluate(ref, x, t)
+        wrong = None
+        if now_eval[0] != "ok":
+            wrong = "evaluation raises %s: %s" % (now_eval[1], now_eval[2])
+        elif f_o is not None and not vec_close(now_eval[1], f_o):
+            wrong = "ode(x,t)=%s but sum rate*net at the values given is %s" % (list(now_eval[1]), [mpf_s(v) for v in f_o])
+        elif r_eval[0] == "ok" and not (vec_close(now_eval[1], r_eval[1]) and vec_close(now_eval[2], r_eval[2])):
+            wrong = "ode/grad differ from a fresh model assigned the same values positionally: ode %s vs %s ; grad %s vs %s" % (
+                list(now_eval[1]), list(r_eval[1]), list(now_eval[2]), list(r_eval[2]))
+        if wrong:
+            cls = "unclassified"
+            pv_py = getattr(m, "_paramValue", None)
+            if pv_py is not None and len(pv_py) == n:
+                for nm, a, e in zip(params, pv_py, expected):
+                    try:
+                        differs = float(a) != float(e)
+                    except Exception:
+                        differs = True
+                    if differs:
+                        others = [v for q, v in cur.items() if q != nm and v is not None]
                         try:
-                            differs = float(a) != float(e)
+                            cls = "value-of-another-name" if any(float(a) == float(v) for v in others) else classify_wrong(nm, a, e, idx, hist, verdicts)
                         except Exception:
-                            differs = True
-                        if differs:
-                            cls = classify_wrong(nm, a, e, idx, hist, verdicts)
-                            break
-                viol.append({"what": "after %s assignment `%s` the evaluations do not use the values given by name: %s" % (
-                                "an accepted" if accepted else "a rejected", op["cls"], wrong),
-                             "signature": "wrong-binding:%s:%s" % (op["cls"] if accepted else "after-rejected", cls),
-                             "detail": "%s ; expected name->value %s ; _paramValue=%s ; history=%s" % (
-                                 where, {k: str(v) for k, v in cur.items()}, pv_py, json.dumps(hist[:idx + 1]))[:2500]})
-        if accepted and op["cls"] in ("pairs_perm", "dict_partial", "dict_full") and (op["cls"] != "dict_full" or [r[1] for r, _ in op["es"]] != params):
-            nontrivial = True
-        prev_eval = now_eval
-        if len(sample_steps) < 8:
-            sample_steps.append({"op": op["cls"], "python": perr or "ok", "lean": lerr or "ok", "abs": ls["abs"]})
+                            cls = "non-numeric"
+                        break
+            if pv_py is not None and len(pv_py) == n and any(isinstance(a, np.integer) for a in pv_py):
+                # is it the BINDING, or fixed-width integer arithmetic on values that are bound to the right names?  A fresh
+                # model assigned, positionally, the expected values in the same numpy integer types tells (independent of
+                # the instance under test)
+                try:
+                    typed = [type(a)(int(e)) if isinstance(a, np.integer) and Fraction(e).denominator == 1 else float(e)
+                             for a, e in zip(pv_py, expected)]
+                    ref.parameters = typed
+                    if same_eval(evaluate(ref, x, t), now_eval):
+                        cls = "numpy-integer-overflow:" + "+".join(sorted(set(type(a).__name__ for a in pv_py if isinstance(a, np.integer))))
+                except Exception:
+                    pass
+            viol.append({"what": "%s: the evaluations do not use the values given by name: %s" % (what_prefix, wrong),
+                         "signature": cls if cls.startswith("numpy-integer-overflow") else sig_of(cls),
+                         "detail": "%s ; expected name->value %s ; _paramValue=%s ; history=%s" % (
+                             where, {k: str(v) for k, v in cur.items()}, getattr(m, "_paramValue", None), json.dumps(hist[:idx + 1]))[:2500]})
+
+    def run_decoy(idx, cur):
+        """ANOTHER live model with the same names is assigned other values and evaluated now"""
+        if decoy is None:
+            return
+        try:
+            base = [float(cur[p]) if (cur is not None and cur.get(p) is not None) else 1.0 for p in params]
+            decoy.parameters = [3.0 * v + 0.5 + i for i, v in enumerate(base)]
+            evaluate(decoy, x, t)
+        except Exception as exc:
+            tags.append("decoy_raises:" + type(exc).__name__)
+
+    li = -1                       # index into the driver's steps
+    for idx, op in enumerate(hist):
+        where = "op#%d %s" % (idx, op["cls"])
+        k = op["k"]
+        # ------------------------------------------------------------------------------------------------ copies
+        if k == "clone":
+            li += 1
+            ls = steps[li]
+            src = insts[op["src"]]
+            try:
+                c = _copy.deepcopy(src["m"])
+            except Exception as exc:
+                viol.append({"what": "copy.deepcopy of a model raises %s" % type(exc).__name__, "signature": "deepcopy-raises:%s" % type(exc).__name__,
+                             "detail": "%s: %s" % (where, str(exc)[:300])})
+                break
+            verdicts.append("accepted")
+            tags.append("op:clone_deepcopy:%s" % ("set" if src["cur"] is not None else "unset"))
+            new = {"m": c, "cur": (dict(src["cur"]) if src["cur"] is not None else None), "prev": None, "origin": "deepcopy", "copied_from": False}
+            src["copied_from"] = True
+            insts.append(new)
+            run_decoy(idx, new["cur"])
+            now = ev(c, idx + 1)
+            lean_compare(c, ls, where + " (the copy)", now, op)
+            judge_values(c, new["cur"], now, where + " (the copy, evaluated before any assignment to it)",
+                         lambda cls: "wrong-binding:deepcopy:%s" % cls, idx, "a copy.deepcopy of a configured model")
+            new["prev"] = now
+            addressed = len(insts) - 1
+            accepted = True
+        elif k == "probe_copy":
+            src = insts[op["src"]]
+            how = op["how"]
+            verdicts.append("accepted")
+            try:
+                c = _copy.copy(src["m"]) if how == "copy" else pickle.loads(pickle.dumps(src["m"]))
+            except Exception as exc:
+                # the tree as found cannot pickle a model (closures): recorded, nothing to judge
+                tags.append("op:probe_%s:unsupported:%s" % (how, type(exc).__name__))
+                c = None
+            if c is not None:
+                tags.append("op:probe_%s:%s" % (how, "set" if src["cur"] is not None else "unset"))
+                now = ev(c, idx + 1)
+                judge_values(c, src["cur"], now, where + " (the %s, evaluated at once)" % ("shallow copy" if how == "copy" else "unpickled model"),
+                             lambda cls: "wrong-binding:%s:%s" % ("shallow-copy" if how == "copy" else "unpickled", cls), idx,
+                             "a %s of a configured model" % ("copy.copy" if how == "copy" else "pickle round trip"))
+                try:
+                    c.parameters = [float(Fraction(q)) for q in op["decoy"]]        # ... then the transient object is given other values
+                    evaluate(c, x, t)
+                except Exception as exc:
+                    tags.append("probe_decoy_raises:" + type(exc).__name__)
+            addressed = None
+            accepted = True
+        # ------------------------------------------------------------------------------------------------ assignments
+        else:
+            li += 1
+            ls = steps[li]
+            a = int(op.get("inst", 0))
+            inst = insts[a]
+            m = inst["m"]
+            verdict, new = oracle_step(params, inst["cur"], op)
+            pyobj = to_python(op)
+            snap = snapshot(pyobj)
+            try:
+                m.parameters = pyobj
+                perr = None
+            except BaseException as exc:       # the setter raises Warning for None
+                perr = err_enum(exc)
+            accepted = perr is None
+            verdicts.append("accepted" if accepted else "rejected")
+            tags.append("op:%s:%s" % (op["cls"], "accepted" if accepted else perr))
+            if accepted and (op.get("elt") or op.get("dtype")):
+                tags.append("elt:%s" % (op.get("elt") or op.get("dtype")))
+            if inst["origin"] != "built":
+                tags.append("assign_to_copy")
+            # the caller's container: untouched by the setter; then (scribble) re-used by the caller
+            if snapshot(pyobj) != snap:
+                # a side effect on the caller's object with (so far) correct evaluations: recorded, not a violation of C09
+                tags.append("side-effect:caller-container-modified:%s" % op["cls"])
+            if accepted and op.get("scribble") and scribble(pyobj):
+                tags.append("caller_overwrites_container_afterwards")
+            elif pyobj is not None and not isinstance(pyobj, (str, float, int)):
+                passed.append((pyobj, snap, op["cls"]))
+
+            # ---- correspondence with the Lean model
+            lerr = ls["err"]
+            if (lerr is None) != accepted:
+                mism.append({"what": "accept/reject", "detail": "%s: lean=%s python=%s ; op=%s" % (where, lerr, perr, json.dumps(op))})
+            elif lerr != perr:
+                mism.append({"what": "error-kind", "detail": "%s: lean=%s python=%s ; op=%s" % (where, lerr, perr, json.dumps(op))})
+            # ---- direct oracle: accepted / rejected as the property says
+            if verdict == "accept" and not accepted:
+                viol.append({"what": "an accepted input form is rejected with %s" % perr, "signature": "valid-rejected:%s:%s" % (op["cls"], perr),
+                             "detail": "%s op=%s history=%s" % (where, json.dumps(op), json.dumps(hist[:idx]))[:1800]})
+            if verdict == "reject" and accepted:
+                viol.append({"what": "malformed assignment accepted (bound silently)", "signature": "malformed-accepted:%s" % op["cls"],
+                             "detail": "%s op=%s" % (where, json.dumps(op))})
+            if accepted:
+                inst["cur"] = new
+            run_decoy(idx, inst["cur"])
+            now = ev(m, idx + 1)
+            lean_compare(m, ls, where, now, op)
+            suffix = "" if inst["origin"] == "built" else ":on-deepcopy"
+            if not accepted and not same_eval(inst["prev"], now):
+                viol.append({"what": "evaluations change after a REJECTED assignment (%s)" % perr,
+                             "signature": "eval-changed-after-rejected:%s%s" % (op["cls"], suffix),
+                             "detail": "%s op=%s ; before %s after %s ; _paramValue=%s" % (where, json.dumps(op), _ev_s(inst["prev"]), _ev_s(now), getattr(m, "_paramValue", None))})
+            else:
+                kind = op["cls"] if accepted else "after-rejected"
+                judge_values(m, inst["cur"], now, where, lambda cls: ("evaluates-unset:%s%s" % (op["cls"], suffix)) if cls == "evaluates-unset"
+                             else "wrong-binding:%s:%s%s" % (kind, cls, suffix), idx,
+                             "after %s assignment `%s`" % ("an accepted" if accepted else "a rejected", op["cls"]))
+            inst["prev"] = now
+            addressed = a
+            if accepted and op["cls"] in ("pairs_perm", "dict_partial", "dict_full") and (op["cls"] != "dict_full" or [r[1] for r, _ in op["es"]] != params):
+                nontrivial = True
+            if len(sample_steps) < 8:
+                sample_steps.append({"op": op["cls"], "inst": a, "python": perr or "ok", "lean": lerr or "ok", "abs": ls["abs"]})
+
+        # ---- every OTHER live instance: evaluates exactly as before, and with the values its own map gives by name
+        for j, other in enumerate(insts):
+            if j == addressed or other["prev"] is None:
+                continue
+            now_o = ev(other["m"], idx + 1)
+            role = "original" if other["origin"] == "built" else "copy"
+            if not same_eval(other["prev"], now_o):
+                viol.append({"what": "an operation on ANOTHER instance changed the evaluations of this one (%s #%d)" % (role, j),
+                             "signature": "other-instance-changed:%s:%s" % (op["cls"], role),
+                             "detail": "%s (addressed to instance %s) ; instance %d before %s after %s" % (where, addressed, j, _ev_s(other["prev"]), _ev_s(now_o))})
+            else:
+                judge_values(other["m"], other["cur"], now_o, where + " (instance %d, not addressed)" % j,
+                             lambda cls: "wrong-binding:other-instance:%s:%s" % (role, cls), idx, "the %s (instance %d)" % (role, j))
+            other["prev"] = now_o
         if viol or mism:
             break
+    # what the caller passed in is still what he passed (nothing holds on to it and writes to it later)
+    for obj, snap, cls in passed:
+        if snapshot(obj) != snap:
+            tags.append("side-effect:caller-container-modified-later:%s" % cls)      # recorded only
+    if len(insts) > 1:
+        tags.append("instances=%d" % len(insts))
     if case.get("malformed"):
         tags.append("stream:malformed")
     else:
